@@ -358,6 +358,8 @@ class Vector():
 		# Python Date interceptors
 		if target_type is date:
 			def caster(x):
+				if isinstance(x, datetime):
+					return x.date()
 				if isinstance(x, date):
 					return x
 				return date.fromisoformat(x)
